@@ -193,7 +193,7 @@ fn main() {
     let alpha: Vec<Op> = vec![Op::Up("a"), Op::Up("b"), Op::Del("a"), Op::BatchUpUp("a", "b"), Op::BatchUpDel("b", "a"), Op::Checkpoint];
     // base histories: all short ones + selected layouts (snapshot + rotated log + live log, two rotated logs)
     let mut hists: Vec<(Vec<Op>, Option<u64>)> = Vec::new();
-    for h in all_histories(&alpha, run.tier.pick(2, 3)) {
+    for h in all_histories(&alpha, run.tier.pick(2, 4)) {
         hists.push((h, None));
     }
     let sel: Vec<Vec<Op>> = vec![
@@ -367,7 +367,7 @@ fn main() {
             };
             let _ = judge;
             let mut todo: Vec<Vec<(Damage, Class)>> = dmg.iter().map(|d| vec![d.clone()]).collect();
-            if pairs && total_size <= 160 {
+            if pairs && total_size <= 200 {
                 // all pairs of byte-level damages (flip bit 0 / set 0xFF / delete) on small images
                 let small: Vec<&(Damage, Class)> = dmg.iter().filter(|(d, _)| (d.kind == "flip" && d.param == 0) || (d.kind == "set" && d.param == 0xFF) || d.kind == "truncate").collect();
                 for i in 0..small.len() {
